@@ -39,7 +39,10 @@ Inductive mop :=
       (* nonce_r: what the Redis broker passes as new epoch (its node id, the same on every call);
          nonce_m: what epoch.Generate() returns inside the memory broker *)
 | MClear (ch : string)
-| MTick (ms : N).
+| MTick (ms : N)
+| MCleanup (now : N) (node : string).
+      (* one key-expiry sweep at time [now] (RedisMapBroker.runCleanupCycle / mapHub.expireKeysIteration);
+         node: the Redis broker's node id (new_epoch_if_empty of the batch-remove script) *)
 
 (* state entry: (Key, Offset, Data, Score); stream entry: (Offset, Key, Data, Removed) *)
 Definition spub := (string * N * string * Z)%type.
